@@ -893,7 +893,7 @@ def emit_dircast(em):
             continue
         for e in em.model:
             m = e['meta']
-            if m['cls'] == cls and m['kind'] == 'cast-ctor':
+            if m['cls'] == cls and m['kind'] in ('cast-ctor', 'cast-assign'):
                 for fmt in (32, 64, 80):
                     if str(fmt) in e['instances'][0]['fmts']:
                         rows.append('(f%d.%s, f%d.%s)' % (fmt, ident(e['id']), fmt, ident(norm)))
